@@ -15,10 +15,10 @@ package lua
 
 //@ define arrSameOrFresh(rg *registry) bool = arrid(rg.array) == old(arrid(rg.array)) || fresh(rg.array)
 
-//@ iface registryHandler.registryOverflow [C01 C10 C12]
+//@ iface registryHandler.registryOverflow [C01 C07 C10 C12]
 //@ noreturn
 
-//@ func (*registry).forceResize [C01 C10 C12]
+//@ func (*registry).forceResize [C01 C07 C10 C12]
 //@ requires Inv_reg(rg) && newSize >= rg.top
 //@ ensures  Inv_reg(rg) && len(rg.array) == newSize && rg.top == old(rg.top)
 //@ ensures  forall k int :: 0 <= k && k < rg.top ==> rg.array[k] == old(rg.array[k])
@@ -26,7 +26,7 @@ package lua
 //@ noraise
 //@ modifies rg.array
 
-//@ func (*registry).resize [C01 C10 C12]
+//@ func (*registry).resize [C01 C07 C10 C12]
 //@ requires Inv_reg(rg) && requiredSize > cap(rg.array)
 //@ raises when ite(requiredSize + rg.growBy > rg.maxSize, rg.maxSize, requiredSize + rg.growBy) < requiredSize
 //@ ensures  Inv_reg(rg) && cap(rg.array) >= requiredSize && rg.top == old(rg.top)
@@ -35,7 +35,7 @@ package lua
 //@ ensures  cap(rg.array) >= old(cap(rg.array))
 //@ modifies rg.array
 
-//@ func (*registry).checkSize [C01 C10 C12]
+//@ func (*registry).checkSize [C01 C07 C10 C12]
 //@ requires Inv_reg(rg)
 //@ raises when requiredSize > cap(rg.array) && ite(requiredSize + rg.growBy > rg.maxSize, rg.maxSize, requiredSize + rg.growBy) < requiredSize
 //@ ensures  Inv_reg(rg) && cap(rg.array) >= requiredSize && rg.top == old(rg.top)
@@ -46,7 +46,7 @@ package lua
 
 //@ define overflow(rg *registry, n int) bool = n > cap(rg.array) && ite(n + rg.growBy > rg.maxSize, rg.maxSize, n + rg.growBy) < n
 
-//@ func (*registry).SetTop [C01 C10 C12]
+//@ func (*registry).SetTop [C01 C07 C10 C12]
 //@ requires Inv_reg(rg) && topi >= 0
 //@ raises when overflow(rg, topi)
 //@ ensures  Inv_reg(rg) && rg.top == topi
@@ -62,7 +62,7 @@ package lua
 //@ loop 2 invariant Inv_reg(rg) && rg.top == topi && topi < old(rg.top) && len(nilRange) == oldtopi - topi && arrid(nilRange) == arrid(rg.array) && offset(nilRange) == topi && oldtopi <= len(rg.array)
 //@ loop 2 invariant forall k int :: 0 <= k && k < topi ==> rg.array[k] == old(rg.array[k])
 
-//@ func (*registry).Push [C01 C10 C12]
+//@ func (*registry).Push [C01 C07 C10 C12]
 //@ requires Inv_reg(rg)
 //@ raises when overflow(rg, rg.top + 1)
 //@ ensures  Inv_reg(rg) && rg.top == old(rg.top) + 1 && rg.array[old(rg.top)] == v
@@ -71,14 +71,14 @@ package lua
 //@ ensures  cap(rg.array) >= old(cap(rg.array))
 //@ modifies rg.array, rg.top, rg.array[*]
 
-//@ func (*registry).Pop [C01 C10 C12]
+//@ func (*registry).Pop [C01 C07 C10 C12]
 //@ requires Inv_reg(rg) && rg.top >= 1
 //@ noraise
 //@ ensures  Inv_reg(rg) && rg.top == old(rg.top) - 1 && result == old(rg.array[rg.top-1])
 //@ ensures  forall k int :: 0 <= k && k < rg.top ==> rg.array[k] == old(rg.array[k])
 //@ modifies rg.top, rg.array[*]
 
-//@ func (*registry).Set [C01 C10 C12]
+//@ func (*registry).Set [C01 C07 C10 C12]
 //@ requires Inv_reg(rg) && regi >= 0
 //@ raises when overflow(rg, regi + 1)
 //@ ensures  Inv_reg(rg) && rg.array[regi] == vali && rg.top == ite(regi >= old(rg.top), regi+1, old(rg.top))
@@ -87,13 +87,13 @@ package lua
 //@ ensures  cap(rg.array) >= old(cap(rg.array))
 //@ modifies rg.array, rg.top, rg.array[*]
 
-//@ func (*registry).IsFull [C01 C12]
+//@ func (*registry).IsFull [C01 C07 C12]
 //@ requires Inv_reg(rg)
 //@ noraise
 //@ ensures  result <==> rg.top >= cap(rg.array)
 //@ modifies nothing
 
-//@ func (*registry).FillNil [C01 C02 C12]
+//@ func (*registry).FillNil [C01 C02 C07 C12]
 //@ requires Inv_reg(rg) && regm >= 0 && n >= 0
 //@ raises when overflow(rg, regm + n)
 //@ ensures  Inv_reg(rg) && rg.top == regm + n
@@ -110,7 +110,7 @@ package lua
 
 //@ define lim0(rg *registry, limit int) int = ite(limit == -1 || limit > rg.top, rg.top, limit)
 
-//@ func (*registry).CopyRange [C01 C02 C10 C12]
+//@ func (*registry).CopyRange [C01 C02 C07 C10 C12]
 //@ requires Inv_reg(rg) && regv >= 0 && n >= 0
 //@ requires regv <= start || regv >= lim0(rg, limit)
 //@ raises when overflow(rg, regv + n)
@@ -405,7 +405,7 @@ package lua
 //@ ensures  forall k int :: base(ls) <= k && k < top(ls) ==> ls.reg.array[k] != nil
 //@ modifies everything
 
-//@ func (*registry).Insert [C01 C02 C10 C12]
+//@ func (*registry).Insert [C01 C02 C07 C10 C12]
 //@ requires Inv_reg(rg) && reg >= 0
 //@ raises when overflow(rg, ite(reg >= rg.top, reg + 1, rg.top + 1))
 //@ ensures  Inv_reg(rg) && arrSameOrFresh(rg) && cap(rg.array) >= old(cap(rg.array))
